@@ -1,6 +1,6 @@
 (* Properties/C13.v — accuracy-driven hit results are the closest achievable to the target *)
 From Coq Require Import ZArith List Bool Floats.
-From V Require Import OptTwin OptTwinProofs F64 Gradual GenState OptCheck OptSmall.
+From V Require Import OptCheckMania OptTwin OptTwinProofs F64 Gradual GenState OptCheck OptSmall.
 Import ListNotations.
 Open Scope Z_scope.
 
@@ -46,3 +46,11 @@ Theorem C13_catch_any_size : forall fd at_ m a b y : Z, 0 <= fd -> 0 <= at_ -> 0
   catch_dist fd at_ m a b (catch_twin fd at_ m a b) <= catch_dist fd at_ m a b y.
 Proof. exact catch_twin_optimal. Qed.
 Print Assumptions C13_catch_any_size.
+
+(* mania on its small domain: every shape up to 6 objects and 2 hold notes, every miss count, the
+   23-point accuracy grid, both priorities, classic and lazer — the float model (the one run against
+   the implementation) returns the requested misses, fills the judgements and is within 1e-12 of the
+   best of ALL distributions of the five hit results *)
+Theorem C13_mania_small : mania_lvl1 = true.
+Proof. exact mania_lvl1_true. Qed.
+Print Assumptions C13_mania_small.
